@@ -68,6 +68,13 @@ EXPLANATION = ("Model: Model/Chunks.v, Model/DistMat.v, Model/Mse.v. Modelled, n
                "save / load are linked with the h5py calls as primitives over the record of the file's four datasets: h5py.File(name, 'w') = a file without datasets, create_dataset(name, data=a, compression='gzip') stores a under name, "
                "h5py.File(name, 'r') = the file's content, f[name][:] the whole array (KeyError when absent), f['size'][0] its first item, np.array([x]) = [x], cls(size, chunk_size=c) = the translated __init__; "
                "load is linked on files written by save (the pipeline's only use); that h5py really round-trips int64 / float64 arrays is exercised by every pipeline case.")
+EXPLANATION = ("Model: Model/Chunks.v, Model/DistMat.v, Model/Mse.v. Modelled, not verified: numpy array storage, h5py, "
+               "tqdm; the CLI wrapper calculate_distance_matrix.main is exercised in-process on real Screen/ThetaHolder files by implementation-only predicate cases (kind cli).")
+# ---- source-translation links of the command-line wrappers (Model/Cli.v, Generated/SrcCli.v) ----
+THEOREMS.update({
+    'C07_model_is_source_cli_calculate_distance_matrix': 'the translation of the whole function calculate_distance_matrix.main regenerated on this run equals, for every record L of library functions and all parsed arguments, Cli.cli_calculate_distance_matrix: calculate_pairwise_distance_matrix_on_predictions on the concatenation of the --thetas files (argument order), the metric object, the loaded screen, --chunk-index, --n-chunks, saved to --output',
+})
+EXPLANATION += ("  CLI wrapper: calculate_distance_matrix.main is re-translated as a WHOLE function on every run (Generated/SrcCli.v) and proved equal to Model/Cli.v.  The link trusts the translator harness/py2gal.py (for these links extended by cfg typed_effects, kwcalls keys `module.function`, state_calls assigned to a tuple), the representation of Model/Cli.v (parsed arguments = a record of the plain argparse results, get_args() not translated = the primitive `get_args()` yielding that record; a main() denotes the list of (path, content) files it writes; `L` = ANY record of library functions over abstract types) and EXACTLY these primitives of harness/src_functions.py, each one field read / one library or constructor call standing for the function of that name (whose own link, where it exists, is the one of its property): CLI_DISTANCE_MATRIX: the fields of `args` read as the record's projections (a store to one is refused); ignored: log_config.configure_logging(args), logger.info/warning; Screen.load_h5(p), ThetaHolder(n_thetas=1), h.load_h5(p), h.concat(l), args.metric_cls(**args.metric_params), the keyword call calculate_pairwise_distance_matrix_on_predictions(...) with its default progress=False, typed effect r.save(p). ")
 
 
 def _tmpdir():
